@@ -236,8 +236,8 @@ static void vsem_case(Toks& tk, Out& out, Params params)
       case 7:
       {
         SolverT moved(std::move(solver));
-        SolverT other = make_solver_with(other_params(), ncells);
-        other = std::move(moved);                 // move assignment onto a solver with another parameter set
+        SolverT other = make_solver_with(other_params(), ncells + 2);  // other integrator parameters and another cell count
+        other = std::move(moved);                 // move assignment onto it: nothing of its own may remain
         solver_box.emplace(std::move(other));     // move construction
         out.tok("M");
         break;
